@@ -107,6 +107,8 @@ pub struct CaseResult {
     pub outcome: Vec<(&'static str, u64)>,
     /// named counters (e.g. "deterministic", "accepted")
     pub counters: Vec<(&'static str, u64)>,
+    /// named sets of keys (e.g. distinct observed states / transitions); the evidence reports their sizes
+    pub sets: Vec<(&'static str, u64)>,
 }
 
 pub trait Engine: Sync {
@@ -161,6 +163,7 @@ pub struct Stats {
     pub nontrivial: BTreeMap<String, HashSet<u64>>,
     pub outcomes: BTreeMap<String, HashSet<u64>>,
     pub counters: BTreeMap<String, u64>,
+    pub sets: BTreeMap<String, HashSet<u64>>,
 }
 
 #[derive(Clone, Serialize, Deserialize)]
@@ -311,6 +314,9 @@ pub fn run_engine<E: Engine>(engine: &E, property: &str, tier: Tier) -> i32 {
                         for (c, n) in res.counters {
                             *local.counters.entry(c.to_string()).or_default() += n;
                         }
+                        for (c, k) in res.sets {
+                            local.sets.entry(c.to_string()).or_default().insert(k);
+                        }
                         // sample selection: smallest hash(seed, index)
                         let hk = hash64(&(seedv, local.evaluations, w as u64));
                         if local_samples.len() < 4 || hk < local_samples.last().unwrap().0 {
@@ -356,6 +362,9 @@ pub fn run_engine<E: Engine>(engine: &E, property: &str, tier: Tier) -> i32 {
                 }
                 for (k, v) in local.counters {
                     *all.counters.entry(k).or_default() += v;
+                }
+                for (k, v) in local.sets {
+                    all.sets.entry(k).or_default().extend(v);
                 }
                 samples.lock().unwrap().extend(local_samples);
             }));
